@@ -642,8 +642,8 @@ func chunksCoverString(c *Ctx, r *Report, rule string) {
 			if !isLen || calleeNameSSA(&lc.Call) != "builtin.len" || lc.Call.Args[0] != ssa.Value(s) {
 				continue
 			}
-			p, isPhi := bin.X.(*ssa.Phi)
-			if !isPhi || p.Comment != "p" {
+			_, isPhi := bin.X.(*ssa.Phi)
+			if !isPhi {
 				continue
 			}
 			if (bin.Op == token.LSS && !f.Holds) || (bin.Op == token.GEQ && f.Holds) || (bin.Op == token.EQL && f.Holds) {
